@@ -24,15 +24,23 @@ started against a holder whose recorded host and user are ours and whose
 process is dead, with locks.steal_dead on; (O4) while nobody has broken
 anything, is_held implies held/info is owned by that locker.
 
-Mutants this was built against (scratch worktrees, all caught, see report):
-  M1 `_attempt_lock`: compare `info.nonce != self.nonce` dropped / `_lock_held = True`
-     set before the rename (caught by exhaustive 2-locker schedules: two holders)
-  M2 `unlock`: `self.confirm()` dropped and rename failure ignored
-  M3 `force_break`: first `current_info != dead_holder_info` check dropped
-  M4 `_handle_lock_contention`: `is_lock_holder_known_dead()` ignored (steals live locks)
-  M5 `is_lock_holder_known_dead` (Rust): user comparison dropped
-  M6 `unlock`: delete info before renaming `held` away (reordered operation)
-  harmless: `_remove_pending_dir` rewritten with a loop / renamed temporaries.
+Mutants this was built against (scratch worktrees; result of the run in brackets):
+  M1 `_attempt_lock`: FileExists on the rename treated as success and the nonce comparison dropped
+     [oracle O4: "locker 2 has is_held but held/info is o0.1"; exhaustive 2-locker schedules]
+  M2 `unlock`: `self.confirm()` dropped [oracle: "unlock of locker 0 renames away held/ of o2.1 although it did
+     not see its own lock there"; needs break + re-acquisition between]
+  M3 `force_break`: first `current_info != dead_holder_info` check dropped [oracle O2, family None: "decided to
+     break o0.1 (force_break then saw o4.1) but renames away held/ of o4.1"; needs the holder to change between
+     break_lock's peek and force_break's peek]
+  M4 `_handle_lock_contention`: `is_lock_holder_known_dead()` ignored [oracle O3: steals a live holder's lock]
+  M5 src/lockdir.rs `is_lock_holder_known_dead`: user comparison dropped [decision-table oracle: known dead for
+     another user's dead pid; plus T2 on schedules with a foreign-user stealer]
+  M6 `unlock`: info deleted before `held` is renamed away [oracle O4: held/ without info while is_held]
+  M7 `_attempt_lock`: `_lock_held = True` before the confirming peek [T2 only: is_held differs at the pending
+     confirm; no property failure without faults — C27 catches it with a fault]
+  M8 `unlock`: `_lock_held` not cleared [oracle O4: is_held with held/ absent]
+  H1 harmless: `_remove_pending_dir` rewritten as a loop, releasing name built with % [clean: 0 mismatches, only
+     the F7 family reported]
 """
 import itertools
 import os
@@ -557,12 +565,10 @@ def install():
     if _installed:
         return
     _installed = True
-    import socket
     from breezy import lock, lockdir, ui
     from breezy._cmd_rs import LockHeldInfo as Real
     _FAULTS = _fault_classes()
     _REAL_HOST = Real.for_this_process(None).hostname
-    assert _REAL_HOST == socket.gethostname() or True
 
     class Shim(metaclass=_Meta):
         """`LockHeldInfo` as seen by lockdir.py: real objects, but the recorded
@@ -797,7 +803,6 @@ def _known_dead_table(ctx):
     """all combinations of crafted holder info against the real Rust function"""
     install()
     from breezy._cmd_rs import LockHeldInfo
-    real = LockHeldInfo.for_this_process(None)
     p = subprocess.Popen(["/bin/true"])
     p.wait()
     dead = p.pid
@@ -821,7 +826,6 @@ def _known_dead_table(ctx):
                 lines.append("kd " + " ".join("T" if b else "F" for b in bits))
                 outs.append("T" if got else "F")
     ctx.diff(cases, lines, outs)
-    del real
 
 
 def _record(ctx, case, obs, oracle, cases, lines, outs):
